@@ -1160,17 +1160,34 @@ func (ex *Exec) sliceOp(fr *frame, in *ssa.Slice) Value {
 		if in.High != nil {
 			highT = intTerm(ex.get(fr, in.High))
 		}
+		// fast path: the bounds are syntactically atom boundaries; otherwise the bounds are checked by the solver
+		// (out of range = the run-time panic) and the result is str.substr
+		general := func() Value {
+			n := mkStrOp("str.len", SInt, c)
+			lo, hi := mkInt(0), n
+			if lowT != nil {
+				lo = lowT
+			}
+			if highT != nil {
+				hi = highT
+			}
+			inRange := mkAnd(mkIntCmp("<=", mkInt(0), lo), mkIntCmp("<=", lo, hi), mkIntCmp("<=", hi, n))
+			if !ex.decideBool(inRange) {
+				panic(goPanic{"slice bounds out of range (string)", ex.pos2(in)})
+			}
+			return lower(mkStrOp("str.substr", SStr, c, lo, mkArith("-", hi, lo)))
+		}
 		if highT != nil {
 			l, _, ok := splitAt(t, highT)
 			if !ok {
-				panic(pathAbort{"unsupported: symbolic string slice (upper bound)"})
+				return general()
 			}
 			t = l
 		}
 		if lowT != nil && !(lowT.Op == "ci" && lowT.I == 0) {
 			_, r, ok := splitAt(t, lowT)
 			if !ok {
-				panic(pathAbort{"unsupported: symbolic string slice (lower bound)"})
+				return general()
 			}
 			t = r
 		}
